@@ -24,6 +24,9 @@ type indexPersist struct {
 	p   *pointerPersist
 	idx *index
 	Config
+	// prepared counts the snapshots taken by prepare (guarded by the index lock);
+	// written is the number of the newest snapshot on disk (guarded by p's lock).
+	prepared, written uint64
 }
 
 func openIndexPersist(idx *index, fs fs.FS) (*indexPersist, error) {
@@ -40,10 +43,22 @@ func (ip *indexPersist) load() ([]pointer, error) {
 func (ip *indexPersist) prepare(start int) func() error {
 	pointerEncoded := ip.p.encode(start, ip.idx.mu.pointers)
 	lenOfPointers := len(ip.idx.mu.pointers)
+	// prepare is called with the index locked, so snapshots are numbered in the
+	// order they were taken.
+	ip.prepared++
+	seq := ip.prepared
 
 	return func() error {
 		ip.p.Lock()
 		defer ip.p.Unlock()
+
+		// Callers release the index lock before writing, so an older snapshot can
+		// get here after a newer one. The newer one starts at or before this one
+		// (persistHead never grows) and already holds its changes: writing the older
+		// one now would put stale pointers back on disk.
+		if seq < ip.written {
+			return nil
+		}
 
 		// Write the dirty pointers before adjusting the file length: growing the
 		// file first would leave zero-filled pointer records on disk if the process
@@ -51,7 +66,11 @@ func (ip *indexPersist) prepare(start int) func() error {
 		if _, err := ip.p.WriteAt(pointerEncoded, int64(start*pointerByteSize)); err != nil {
 			return err
 		}
-		return ip.p.Truncate(int64(lenOfPointers) * pointerByteSize)
+		if err := ip.p.Truncate(int64(lenOfPointers) * pointerByteSize); err != nil {
+			return err
+		}
+		ip.written = seq
+		return nil
 	}
 }
 
